@@ -74,7 +74,8 @@ def cells? (p : Plane) (bbox : Rect) : Option (List Key) :=
   if plane_cells_over (rStart x0 p.gridsize) (rStop x1 p.gridsize) (rStart y0 p.gridsize) (rStop y1 p.gridsize)
   then none else some (getrange p bbox)
 
-/-- `Plane.add`: an object covering more than `MAXCELLS` cells goes to `_big`, the others into the grid. -/
+/-- `Plane.add`, the insertion proper (the method after its two guards, see `addPy`): an object covering more
+than `MAXCELLS` cells goes to `_big`, the others into the grid. -/
 def add (p : Plane) (o : PObj) : Plane :=
   let p' : Plane :=
     match cells? p (bboxOf o) with
@@ -133,8 +134,20 @@ def contains (p : Plane) (o : PObj) : Bool := decide (o.id ∈ p.objs)
 /-- `Plane.__len__`: `len(self._objs)`. -/
 def len (p : Plane) : Nat := p.objs.length
 
+/-- The re-add path of `Plane.add`: the stale entry of an object that was added before (and removed since)
+is dropped from `_seq`; `_order` is rebuilt as the 1-based position in `_seq` (which is what `rank` computes). -/
+def forget (p : Plane) (o : PObj) : Plane := { p with seq := p.seq.erase o }
+
+/-- The whole of `Plane.add` (since the repair of duplicates): a no-op for an object that is already in the
+index; an object that was added before is first forgotten (`obj in self._order` = it still has an entry in
+`_seq`); then the insertion proper (`add`, the rest of the method - it is what the layout model of C09
+calls, always with fresh objects, where `addPy = add`: `addPy_fresh`). -/
+def addPy (p : Plane) (o : PObj) : Plane :=
+  if o.id ∈ p.objs then p
+  else add (if o ∈ p.seq then forget p o else p) o
+
 /-- `Plane.extend`: `add` for every object, in order. -/
-def extend (p : Plane) (os : List PObj) : Plane := os.foldl add p
+def extend (p : Plane) (os : List PObj) : Plane := os.foldl addPy p
 
 /-- The candidates `find` looks at (`found` before it is sorted): the cells of the query plus `_big`, or -
 for a query over more than `MAXCELLS` cells - every live object; de-duplicated, overlap-filtered. -/
